@@ -158,6 +158,34 @@ func ruleDecimalLossyGuard(c *Ctx) {
 		}
 		return false
 	}
+	// wrappers: a function with a decimal parameter that hands it, unguarded, to a lossy function with a decimal
+	// parameter is itself lossy (the obligation moves to its callers)
+	for changed := true; changed; {
+		changed = false
+		for _, f := range funcs {
+			if _, isLossy := lossyFn[f]; isLossy || !hasDecParam(f) {
+				continue
+			}
+			for _, b := range f.Blocks {
+				for _, ins := range b.Instrs {
+					call, ok := ins.(ssa.CallInstruction)
+					if !ok {
+						continue
+					}
+					cal := call.Common().StaticCallee()
+					if cal == nil {
+						continue
+					}
+					if op, isLossy := lossyFn[cal]; isLossy && hasDecParam(cal) && !dominatedByExponentTest(b) {
+						if _, done := lossyFn[f]; !done {
+							lossyFn[f] = op
+							changed = true
+						}
+					}
+				}
+			}
+		}
+	}
 	nSites := 0
 	var names []string
 	for f := range lossyFn {
